@@ -9,11 +9,14 @@ E3 = 'closure / orbit breadth-first search with model-side nodes (exact denotati
 _T = {
  'C01': ('exploration', 'Every ordered pair of flat objects (Line/HalfLine/Segment through all ordered lattice point pairs, all distinct lattice planes, '
          'half-lattice points) under exact oblique poses is intersected by the real code (function and method form) and compared with the closed-form exact model; '
-         'all 25 type pairs and all collinear interval relations are populated (cells in evidence).'),
+         'all 25 type pairs and all collinear interval relations are populated (cells in evidence); lattice shifted so that -1/-2 coordinates occur, int coordinates and '
+         'alternative constructor forms, first operand object reused across scenes, and a family that moves operands in place between queries.'),
  'C02': ('exploration', 'For every catalogue body x pose, every flat anchored at a body feature (vertex, edge midpoint, face point, interior) with directions from D1, '
-         'edge directions and facet normals, in both argument orders, plus the exported boundary-hit helpers, is compared with exact clipping / vertex enumeration.'),
+         'edge directions and facet normals, in both argument orders, plus the exported boundary-hit helpers, is compared with exact clipping / vertex enumeration; bodies are also moved in place between '
+         'queries, and polygons are placed in upright planes with awkward direction ratios (pose P4).'),
  'C03': ('exploration', 'Ordered pairs of catalogue bodies under all lattice translations of a window, all feature alignments, nested scalings and exact affine '
-         're-orientations (whole scene under oblique poses): result kind, vertex set, face count and measures against the exact vertex enumeration.'),
+         're-orientations, vertex probing with small bodies, generic irrational rotations (float vertex enumeration under a general-position margin), bodies moved in place '
+         'between queries (whole scene under oblique poses): result kind, vertex set, face count and measures against the exact vertex enumeration.'),
  'C05': ('exploration', 'Every (container, candidate) pair: lattice line-likes/planes x half-lattice points and lattice segments/half-lines/lines; bodies x feature points '
          '(on, just inside, just outside every boundary feature), feature segments, faces, shrunk/shifted/enlarged faces, cross-sections; against exact containment.'),
  'C06': ('exploration', 'All vertex permutations (n! up to the stated n, structured family beyond), all face orders x 2^F orientations (bounds stated per F), lattice segments '
